@@ -301,8 +301,13 @@ def run(ctx, replay):
         "reply code, smtpconn's conversion of a peer's reply incl. the 552->452 rewrite); the LMTP per-recipient "
         "status of target/smtp only copies the peer's reply and is not driven",
         "histories: one recipient failing over max_tries 2 and 3 attempts of the real queue with every sequence of "
-        "{451 4.3.0, 550 5.1.1, unclassified, WithTemporary(true) around 550}; a report of class 4 is accepted only "
-        "when the tries were exhausted on a failure that was still temporary",
+        "{451 4.3.0, 550 5.1.1, 450 / 554 without enhanced code, unclassified, WithTemporary(true) around 550, "
+        "un-annotated temporary and permanent failures (net.DNSError, WithTemporary(false))}; the target fails at "
+        "AddRcpt, in the per-recipient status of a non-atomic body, at Start, Body or Commit (all sequences for "
+        "max_tries 2; max_tries 3 at AddRcpt and a part elsewhere), with and without a restart of the queue on the "
+        "same spool between the attempts; failure point and restart are data dimensions of the replay (the rule "
+        "and the predicates do not depend on them); a report of class 4 is accepted only when the tries were "
+        "exhausted on a failure that was still temporary",
         "AUTH replies: real submission endpoint over an in-memory connection, PLAIN and LOGIN, the provider fails "
         "with 11 error terms; demanded: class coherence, no internal text (incl. the words 'auth. provider'), ASCII; "
         "that HEAD answers every failed exchange, permanent ones included, 454 4.7.0 is not judged",
